@@ -175,7 +175,8 @@ func (g *G) genRandom(id string, opt randOpt) *History {
 			if g.chance(0.2) {
 				// both fields, in either order: one names another origin, the other a stored resource of this one
 				other := [2]string{"Location", pick(g, "http://other.test/p1", "https://a.test/p1", "http://a.test:8080/p1")}
-				same := [2]string{"Content-Location", pick(g, r.spellings...)}
+				// ... preferably ANOTHER resource of this history (the target itself is invalidated anyway)
+				same := [2]string{"Content-Location", pick(g, resources[res[(ri+1)%nres]].spellings...)}
 				if g.chance(0.3) {
 					other[0], same[0] = same[0], other[0]
 				}
@@ -337,6 +338,7 @@ func (g *G) classes() []genClass {
 	}
 	chain := func(g *G, id string) *History { return g.genChain(id) }
 	sie := func(g *G, id string) *History { return g.genSIE(id) }
+	swrInval := func(g *G, id string) *History { return g.genSWRInval(id) }
 	switch g.prop {
 	case "C01":
 		return []genClass{{6, grid}, {3, chain}, {1, status}, {1, vary}}
@@ -359,15 +361,15 @@ func (g *G) classes() []genClass {
 	case "C07":
 		return []genClass{{7, inval}, {2, urls}, {2, func(g *G, id string) *History { return g.genInvalRace(id) }}}
 	case "C08":
-		return []genClass{{4, vary}, {2, grid}, {3, chain}, {2, inval}}
+		return []genClass{{4, vary}, {2, grid}, {3, chain}, {2, inval}, {1, swrInval}}
 	case "C19":
-		return []genClass{{3, vary}, {1, inval}, {2, func(g *G, id string) *History { return g.genRepeat(id) }}}
+		return []genClass{{3, vary}, {1, inval}, {2, func(g *G, id string) *History { return g.genRepeat(id) }}, {1, swrInval}}
 	case "C16":
-		return []genClass{{8, func(g *G, id string) *History { return g.genConcurrent(id) }}, {2, func(g *G, id string) *History { return g.genSWR(id) }}}
+		return []genClass{{8, func(g *G, id string) *History { return g.genConcurrent(id) }}, {2, func(g *G, id string) *History { return g.genSWR(id) }}, {1, swrInval}}
 	case "C05":
 		return []genClass{{7, func(g *G, id string) *History { return g.genFaithful(id) }}, {2, status}, {1, backends}}
 	case "C20":
-		return []genClass{{8, func(g *G, id string) *History { return g.genSWR(id) }}, {2, grid}}
+		return []genClass{{8, func(g *G, id string) *History { return g.genSWR(id) }}, {2, grid}, {1, swrInval}}
 	case "C09":
 		return []genClass{{4, urls}, {3, vary}, {3, backends}, {2, chain}}
 	}
